@@ -140,6 +140,11 @@ func (ps *ProcessSet) run(ctx context.Context) {
 				sourceRef, ok := ps.messageFlows[msg.Id]
 				if ok {
 					startFlowNode, waitingProcess, found := ps.resolveWaitingProcessAndEvent(string(sourceRef.TargetRefField))
+					if _, isCatch := startFlowNode.(*schema.IntermediateCatchEvent); isCatch {
+						// the target is a catch event of a process that has been instantiated
+						// already: it is woken below, not instantiated again
+						found = false
+					}
 					if found {
 						// flow nodes
 						subTracer := tracing.NewTracer(ctx)
